@@ -859,13 +859,18 @@ class GTakeUntil(GateRef):
 
 
 class GSkipUntil(GateRef):
+    """the trigger's first item opens the gate AND releases the trigger (its later events - an error in particular - no longer
+    concern the stream: step() answers None for events of a released trigger, they cannot occur)"""
     init = False
+    extra = ("abort",)
 
     def step(self, st, ev):
         if ev == "S.N":
             return ((("emit", "item"),) if st else ()), st, False
+        if ev.startswith("T.") and st:
+            return None
         if ev == "T.N":
-            return (), True, False
+            return (("abort",),), True, False
         return {"S.E": ((("error",),), st, True), "S.C": ((("complete",),), st, True),
                 "T.E": ((("error",),), st, True), "T.C": ((), st, False)}[ev]
 
@@ -963,7 +968,10 @@ def _explore_gate(r, S, ref, root, name):
                 outs = Sm.step(sigma, ALPHABET)
                 if not outs:
                     raise Undecided("no feasible path for %s in state %s" % (ev, state))
-                rtrace, rst2, rdone = ref.step(rst, ev)
+                rstep = ref.step(rst, ev)
+                if rstep is None:              # the reference says this input was released: the event cannot occur
+                    continue
+                rtrace, rst2, rdone = rstep
                 for (tr, nx), (p, newcells) in outs.items():
                     steps += 1
                     ntr = _norm_trace(tr, ref.extra)
